@@ -7,12 +7,15 @@
 // every mutation of the alphabet is applied to one side (thorough: every ordered pair on
 // every side combination for the Clone family) and the other side must be observably
 // unchanged. Read-only operands of every container/scalar operation are snapshotted
-// before and compared after the call.
+// before and compared after the call. interleave.go: callback interleaving of operations on
+// copy and source (state shared only DURING an operation); twocall.go: two-call histories of
+// the algorithm entry points sharing one caller-supplied InSitu object.
 package main
 
 import (
 	"encoding/json"
 	"fmt"
+	"os"
 	"runtime"
 	"strings"
 
@@ -21,11 +24,13 @@ import (
 )
 
 type Case struct {
-	Kind  string     `json:"check"` // indep | readonly | iter | algo | append
+	Kind  string     `json:"check"` // indep | readonly | iter | algo | append | interleave | twocall
 	Indep *IndepCase `json:"indep,omitempty"`
 	R     *RCase     `json:"readonly,omitempty"`
 	I     *ICase     `json:"iter,omitempty"`
 	A     *ACase     `json:"algo,omitempty"`
+	X     *XCase     `json:"interleave,omitempty"`
+	T     *TCase     `json:"twocall,omitempty"`
 	Key   string     `json:"key"`
 }
 
@@ -247,6 +252,16 @@ func run(c *vf.Ctx) {
 	}()
 	thorough := c.Thorough()
 	nontrivial := int64(0)
+	// development aid: VERIF_C12_PARTS=twocall,interleave runs only the named parts (the
+	// evidence then says exhaustive:false)
+	only := os.Getenv("VERIF_C12_PARTS")
+	want := func(part string) bool {
+		if only == "" {
+			return true
+		}
+		c.Cap("VERIF_C12_PARTS=" + only)
+		return strings.Contains(","+only+",", ","+part+",")
+	}
 
 	// ---- copy independence
 	nStates, nTrans := int64(0), int64(0)
@@ -258,6 +273,9 @@ func run(c *vf.Ctx) {
 		c.Traces(nTrans)
 	}()
 	enumDescs(thorough, func(d Desc) {
+		if !want("indep") {
+			return
+		}
 		nStates++
 		cts := ctors(d, thorough)
 		for ci := range cts {
@@ -322,12 +340,15 @@ func run(c *vf.Ctx) {
 	})
 
 	// ---- dense slice, append on the slice, read the parent (classified, see report)
-	if c.Shard == 0 {
+	if c.Shard == 0 && want("indep") {
 		appendProbe(r)
 	}
 
 	// ---- read-only operands
 	enumRCases(thorough, func(cs RCase) {
+		if !want("readonly") {
+			return
+		}
 		r.idx++
 		if !c.Mine(r.idx) {
 			return
@@ -353,7 +374,7 @@ func run(c *vf.Ctx) {
 
 	// ---- iterator clones
 	enumDescs(false, func(d Desc) {
-		if d.Kind == "scalar" || d.Order > 0 {
+		if d.Kind == "scalar" || d.Order > 0 || !want("iter") {
 			return
 		}
 		if d.Kind == "matrix" && (len(d.Path) > 1 || d.Mask != bits(d.R*d.C)) && !thorough {
@@ -382,6 +403,9 @@ func run(c *vf.Ctx) {
 
 	// ---- representative algorithm entry points
 	enumACases(thorough, func(cs ACase) {
+		if !want("algo") {
+			return
+		}
 		r.idx++
 		if !c.Mine(r.idx) {
 			return
@@ -394,6 +418,32 @@ func run(c *vf.Ctx) {
 			nontrivial++
 		}
 	})
+
+	// ---- two-call histories sharing one InSitu object
+	enumTCases(thorough, func(cs TCase) {
+		if !want("twocall") {
+			return
+		}
+		r.idx++
+		if !c.Mine(r.idx) {
+			return
+		}
+		c.Guard("twocall|"+cs.Algo, int64(cs.In1), cs)
+		fails, out := runTCase(cs)
+		cc := cs
+		r.report(Case{Kind: "twocall", T: &cc}, int64((cs.In1+cs.In2)*100+cs.Opt1*10+cs.Opt2+cs.Flags), fails, out)
+		if strings.HasPrefix(out, "ok") {
+			nontrivial++
+		}
+		if r.idx%1009 == 0 {
+			c.Sample(map[string]any{"check": "twocall", "algorithm": cs.Algo, "type": cs.Typ, "buffers": cs.Mode, "flags": cs.Flags, "inputs": []int{cs.In1, cs.In2}, "options": []int{cs.Opt1, cs.Opt2}, "outcome": out})
+		}
+	})
+
+	// ---- callback interleaving: O2 on one side fired inside every interposable call of O1 on the other
+	if want("interleave") {
+		nontrivial += exploreInterleave(r, thorough)
+	}
 	c.Nontrivial(nontrivial)
 }
 
@@ -438,13 +488,17 @@ func main() {
 		Rule: "explicit-state enumeration of containers (dense/sparse vectors n<=3: every zero pattern, every Slice(i,j); dense/sparse matrices <=2x3: every view state reachable by Slice/T to fixpoint, keyed by implementation header + model window; " +
 			"scalars of all 16 types with order 0/1/2 content) x every copy constructor (Clone*, Clone{Vector,Matrix,Scalar}, CloneConst*, CloneMagic*, AsDense*/AsSparse*/AsSparseConst* to other element types and storage classes) x every single mutation of the mutation alphabet on either side " +
 			"(thorough: every ordered pair on every side combination for the deep-copy constructors); iterator clones at every position; read-only operand snapshots around every vector/matrix/scalar operation with owning/slice/transposed dense/sparse operands; " +
-			"a case is non-trivial if the mutation changed its target (indep), the call returned (readonly/algo) or the iterator had elements left (iter)",
+			"callback interleaving: for (source, copy) pairs of vectors n<=3 / matrices 2x2 (owning, transposed, sliced; all 9 element types, both storage classes) x copy constructors with a mutable result (quick: Clone family and same-type As*, thorough: all) x receiver side x every operation O1 of {MdotM(w,w), MdotM(w,recv), MdotM(recv,w), MaddM, MmulM, MsubS, Set, Outer, Map, MapSet, Reduce | VaddV, VmulV, VsubS, MdotV, VdotM, Set, Map, MapSet, Reduce} whose container operands are counting ConstMatrix/ConstVector wrappers x every operation O2 of the mutation alphabet on the other side x EVERY call index k of the wrappers / callbacks: O2 is fired inside the k-th call; " +
+			"two-call histories sharing one InSitu object for qrAlgorithm, svd, eigensystem, cholesky, matrixInverse, determinant, hessenbergReduction, householder{Tri,Bi}diagonalization, backSubstitution, gramSchmidt, newton: every ordered pair of option sets x InSitu flag combination x buffers initially nil / caller-allocated x every ordered pair of different inputs of equal dimension x {Float64, Real64}; " +
+			"a case is non-trivial if the mutation changed its target (indep), the call returned (readonly/algo/twocall), the iterator had elements left (iter), or O2 was fired inside O1 and changed the other side (interleave)",
 		Assume: []string{
 			"observable state = public read API (dims, every element value/order/N/derivatives/Hessian, const-iterator sequence); explicit zero entries of sparse containers are not observable",
 			"As-conversions to another element type promise values only; same-type As and the Clone family promise derivatives too",
 			"a view constructor or conversion that panics on a sliced/transposed source is counted (outcome ctor-panic-on-view), the addressing of views is C10's subject",
 			"AppendScalar/AppendVector on a dense slice writing into the parent's spare capacity is Go slice semantics on an alias the caller created: classified as an outcome, not a violation",
 			"algorithm inputs: representative set only (C04-C07/C15/C16 check their own inputs)",
+			"interleaving: one logical thread of control; the interleaving points are the calls the receiver's operation makes into its operands and callbacks (an operation that type-switches to a concrete fast path makes none and is counted as not-interposable); state shared by a view and its parent (T()/Slice share the scratch vectors by construction) is not in scope",
+			"InSitu: no doc comment defines result ownership; the result objects are the exported buffer fields, so first-call results that change during the second call are an outcome class (results-alias-buffers), not a violation; with InitializeH=false the caller (harness) fills H itself before each call; a call that fails loudly (error/panic) only with or only without the InSitu object is an outcome class",
 		},
 		Run: run,
 		Replay: func(c *vf.Ctx, raw json.RawMessage) {
@@ -463,6 +517,10 @@ func main() {
 				fails, _ = runICase(*cs.I)
 			case "algo":
 				fails, _ = runAlgo(*cs.A)
+			case "interleave":
+				fails, _ = runXCase(*cs.X)
+			case "twocall":
+				fails, _ = runTCase(*cs.T)
 			}
 			for _, f := range fails {
 				if f.key == cs.Key {
